@@ -221,7 +221,7 @@ func c10Gen(c *Ctx) {
 	}
 	pk7 := wireGUID(signature.EFI_CERT_TYPE_PKCS7_GUID)
 	for i := 0; i < c.N(800, 40000) && c.NFailures() < 8; i++ {
-		n := []int{0, 1, 7, 16, 100, 1500, c.Rng.Intn(4000), c.Rng.Intn(c.N(8000, 65536))}[c.Rng.Intn(8)]
+		n := []int{0, 1, 7, 16, 100, 1500, c.Rng.Intn(4000), c.Rng.Intn(c.P(8000, 65536))}[c.Rng.Intn(8)]
 		data := randBytes(c, n)
 		payload := randBytes(c, []int{0, 1, 28, 76, c.Rng.Intn(300)}[c.Rng.Intn(5)])
 		time := randBytes(c, 16)
